@@ -9,6 +9,12 @@
 // extra), is_empty, exact bits-used (through a copy, so that the observation does not disturb the cached state),
 // serialized size, and for caller memory the bit array itself byte by byte.
 //
+// Known findings on the pinned tree (keys below, patches in out/proposed/C15-*.diff): A update() through caller memory leaves the
+// count field of the memory stale; B query_and_update() on a dirty filter stores a stale count and clears the dirty flag;
+// C set operations are not refused on read-only views; D capacities of 2^32 bits and more are restored modulo 2^32.
+// Half of the cases play a "disciplined caller" (cfg disc: get_bits_used() after update(), and for caller memory a
+// query_and_update() of the same item, which pushes the exact count into the memory) so that the search goes on behind A and B.
+//
 // Views and time. The statement speaks about views *taken at a later time*. A view that was taken earlier and then
 // bypassed by a write through another view of the same memory keeps privately cached counters; nothing is promised
 // about it, so such views are destroyed (label "stale-view-dropped") and new ones are taken by later ops.
@@ -29,12 +35,12 @@ namespace {
 const char* const KEY_A = "C15|bloom|update()-through-caller-memory|bits-used field (bytes 24..31) left stale|view created from that memory afterwards";
 const char* const KEY_B = "C15|bloom|query_and_update()-on-dirty-filter|stale count stored and dirty flag cleared|update() then query_and_update() without recount";
 const char* const KEY_C = "C15|bloom|read-only view|invert/union_with/intersect not refused|set operation through non-const copy of wrap()";
+const char* const KEY_D = "C15|bloom|capacity >= 2^32 bits|deserialize/wrap shift the 32-bit length in longs by 6 without widening|serialize->restore of a filter of 2^32 or more bits";
 
 // A failing comparison can have more than one known explanation (the two count defects overlap: after update() and
 // query_and_update() through the same caller-memory filter either of them alone leaves a wrong count in the memory). Suspicions
 // are carried as a mask; a failure is reported under an explanation that is listed as open if there is one, else under the first.
 enum : unsigned { SUS_A = 1, SUS_B = 2, SUS_C = 4 };
-const char* const KEY_D = "C15|bloom|capacity >= 2^32 bits|deserialize/wrap shift the 32-bit length in longs by 6 without widening|serialize->restore of a filter of 2^32 or more bits";
 std::string keyof(unsigned mask) {
   const char* const keys[3] = {KEY_A, KEY_B, KEY_C};
   for (int i = 0; i < 3; ++i) if ((mask >> i & 1) && vf::known_keys().count(keys[i])) return keys[i];
